@@ -81,7 +81,10 @@ func (s *Server) dial(ctx context.Context, network, address string) (net.Conn, e
 
 // Transport returns a fresh http.Transport that reaches this server.
 func (s *Server) Transport() *http.Transport {
-	tr := &http.Transport{DialContext: s.dial, MaxIdleConnsPerHost: 4, ExpectContinueTimeout: time.Second, DisableCompression: true}
+	// One in-memory connection per request: connection reuse adds nothing to what is being
+	// checked, and a reused pipe that the server has just closed fails differently from TCP
+	// (no transparent retry), which showed up as rare spurious 500s under load.
+	tr := &http.Transport{DialContext: s.dial, DisableKeepAlives: true, ExpectContinueTimeout: time.Second, DisableCompression: true}
 	if s.tr == nil {
 		s.tr = tr
 	}
